@@ -62,6 +62,12 @@ def respell(rng, name, allow_hex=True, allow_pad=False):
     return s
 
 
+def camel(name):
+    """the DOM (camel-case) name of a CSS property name, written independently of cssproperties._toDOMname"""
+    parts = name.split('-')
+    return parts[0] + ''.join(p[:1].upper() + p[1:] for p in parts[1:])
+
+
 def random_name(rng):
     k = rng.randint(0, 12)
     alpha = rng.choice(['abcxyz-', 'abXYZ-', 'aAbB-', 'abcABC-_19', 'ab-€Z'])
